@@ -2040,3 +2040,30 @@ def _int_max(ex, c):
 def _is_pow2(ex, c):
     a = c.args[0]
     return Bool(z3.And(a.t != 0, (a.t & (a.t - 1)) == 0))
+
+
+@summary("Vec::dedup_by")
+def _vec_dedup_by(ex, c):
+    r, f = c.args
+    base = r
+    while isinstance(ex.load(base), Ref):
+        base = ex.load(base)
+    seq = ex.load(base)
+    kept = []
+    for x in seq.items:
+        if kept:
+            cx, ck = Cell(x), Cell(kept[-1])
+            same = ex.call_callable(f, [Ref(cx, mut=True), Ref(ck, mut=True)])
+            if ex.branch(same.t):
+                kept[-1] = ck.v
+                continue
+            x = cx.v
+            kept[-1] = ck.v
+        kept.append(x)
+    ex.store(base, Seq(kept))
+    return UNIT
+
+
+@summary("Vec::dedup")
+def _vec_dedup(ex, c):
+    raise Unsupported("Vec::dedup (element equality) is not summarised")
